@@ -1636,6 +1636,11 @@ pub fn eval_ternary_equality(lhs: &Value, rhs: &Value) -> Option<bool> {
     Value::Context(ls) => match rhs {
       Value::Context(rs) => {
         if ls.keys().len() == rs.keys().len() {
+          // contexts with different keys are NOT EQUAL, whatever their values are
+          // (decided before any value is compared, so that the result does not depend on the order of operands)
+          if ls.keys().any(|key| rs.get_entry(key).is_none()) {
+            return Some(false);
+          }
           for (key1, value1) in ls.deref() {
             if let Some(value2) = rs.get_entry(key1) {
               if let Some(equal) = eval_ternary_equality(value1, value2) {
